@@ -64,6 +64,8 @@ pub struct NodeCtx {
     pub events: Mutex<Vec<String>>,
     /// true = the node reads the wall clock (real-transport conformance stage, one node per process)
     pub real_clock: AtomicBool,
+    /// true = the clock does not advance between reads (a coarse clock: two changes issued in one tick)
+    pub clock_hold: AtomicBool,
 }
 
 pub enum LinkCmd {
@@ -142,6 +144,7 @@ impl NodeCtx {
             sleeps: AtomicU64::new(0),
             events: Mutex::new(vec![]),
             real_clock: AtomicBool::new(false),
+            clock_hold: AtomicBool::new(false),
         })
     }
     pub fn install(self: &Arc<Self>) {
@@ -156,6 +159,9 @@ impl Hooks for NodeCtx {
     fn now_nanos(&self) -> Option<u64> {
         if self.real_clock.load(Ordering::SeqCst) {
             return None;
+        }
+        if self.clock_hold.load(Ordering::SeqCst) {
+            return Some(self.clock.load(Ordering::SeqCst));
         }
         Some(self.clock.fetch_add(1, Ordering::SeqCst) + 1)
     }
